@@ -36,6 +36,8 @@ def run_shard(spec, M):
     if fam in ("docs", "per_dialect", "reused"):
         names = sorted(dialects.master())
         reused = doccheck.Reused(rng(seed, ID, "reused", spec["shard"])) if fam == "reused" else None
+        if reused is not None:
+            reused.spec = spec
         for i in range(spec["start"], spec["start"] + spec["n"]):
             kw = {"dialect": names[i % 80], "size": "small"} if fam == "per_dialect" else {}
             R = doccheck.make_doc(seed, fam, i, **kw)
@@ -57,6 +59,9 @@ def run_shard(spec, M):
 
 
 def replay(case, M):
+    if case.get("kind") == "shard":
+        run_shard(case["spec"], M)
+        return
     if case["kind"] == "corpus":
         run_shard({"family": "corpus", "seed": 0}, M)
         return
